@@ -256,6 +256,7 @@ def run(ctx):
                 ctx.violation("parse/protocol/native/%s" % classify(why), "binary + consumer script built for the path %s: the real parser deviates from the protocol: %s (%s)" % (
                     describe(r.events), why, str(real)[:300]), {"cmd": real.get("cmd"), "real": real})
                 break
+    wrappers(ctx, mf, registry, rp)
     rp.close()
     ctx.extra["states"] = complete
     ctx.extra["transitions"] = eng.stats.paths
@@ -264,6 +265,94 @@ def run(ctx):
     ctx.queries += eng.stats.solver_calls
     ctx.extra["explanation"] = ("All paths of Parser::parse (MIR) under arbitrary consumer answers and callee outcomes, loop unrolled to %d: "
                                 "each path's event log and result are checked against the protocol." % K)
+
+
+def wrappers(ctx, mf, registry, rp):
+    """`parse_bytes` / `parse_words` (what `load_bytes` / `load_words` and every user call): executed from their generic MIR with
+    `Parser::new` and `Parser::parse` as logged events. On every path there is exactly one parser, built over the caller's bytes
+    and consumer, exactly one `parse`, and its result is what the wrapper returns — so the protocol decided above for
+    `Parser::parse` is the protocol of the public entry points. A deviation is confirmed differentially on the compiled crate
+    (wrapper vs `Parser::new(..).parse()` with the same scripted consumer) over C20's corpus."""
+    for wname in ("parse_bytes", "parse_words"):
+        c = [x for x in mf.find(wname) if "closure" not in x[0] and x[1] == "fn"]
+        if len(c) != 1:
+            ctx.ob("wrapper/%s/encodable" % wname, None, "%d candidates" % len(c))
+            continue
+        fn = mf.parse_item(c[0][2])
+
+        def m_new(engine, st, fr, callee, args, ops):
+            st.events.append(("new", args[0], args[1]))
+            return sym.Sym(engine.fresh_name("parser"), "Parser")
+
+        def m_parse(engine, st, fr, callee, args, ops):
+            k = sum(1 for e in st.events if e[0] == "parse")
+            st.events.append(("parse", k))
+            err = sym.Sym("parse_err%d" % k, "binary::parser::State")
+            return sym.Fork([(True, sym.Adt("Result", "Ok", [sym.UNIT]), ("parse-outcome", "ok")), (True, sym.Adt("Result", "Err", [err]), ("parse-outcome", "err"))])
+        opaque = lambda nm: (lambda engine, st, fr, callee, args, ops: sym.Sym(engine.fresh_name(nm), nm))
+        models = [(r"^Parser::<'_, '_>::new$", m_new), (r"^Parser::<'_, '_>::parse$", m_parse),
+                  (r" as AsRef<\[u(8|32)\]>>::as_ref$", lambda e, s_, f, c_, a, o: sym.Sym(
+                      "input_slice_of_the_first_argument" if (isinstance(a[0], sym.Ref) and a[0].root[1] == "_1" and not a[0].path) else e.fresh_name("slice_of_something_else"), "&[u8]")),
+                  (r"^core::slice::<impl \[u32\]>::as_ptr$", lambda e, s_, f, c_, a, o: sym.Adt("PtrOf", None, [a[0]])),
+                  (r"^core::slice::<impl \[u(8|32)\]>::len$", lambda e, s_, f, c_, a, o: z3.BitVec("input_len", 64)),
+                  (r"^(std|core)::slice::from_raw_parts::<", lambda e, s_, f, c_, a, o: sym.Adt("RawParts", None, [a[0], a[1]])),
+                  (r"^(std|core)::ptr::drop_in_place::<|^drop::<", lambda e, s_, f, c_, a, o: sym.UNIT)]
+        eng = sym.Engine([mf], registry, models=models + mk_models(), eager=True, loop_bound=4)
+        try:
+            res = eng.run(fn, [sym.Sym("binary", "T"), sym.Sym("consumer", "&mut dyn Consumer")], pc=[z3.ULE(z3.BitVec("input_len", 64), 1 << 40)])
+        except mir.Unsupported as ex:
+            # no verdict from the solver; the differential run below can still exhibit a concrete input against the real code
+            # (finding none proves nothing: the leg stays inconclusive)
+            res = None
+            bad = "the wrapper cannot be encoded (%s)" % str(ex)[:200]
+        bad = None if res is not None else bad
+        for r in (res or []):
+            if r.status != "return":
+                if r.status == "panic" and "overflow" in str(r.info) and wname == "parse_words":
+                    continue        # len * 4 of a slice that exists cannot overflow (a [u32] of that many elements does not fit the address space)
+                bad = "a path ends in %s %s" % (r.status, r.info)
+                break
+            news = [e for e in r.events if e[0] == "new"]
+            parses = [e for e in r.events if e[0] == "parse"]
+            if len(news) != 1 or len(parses) != 1:
+                bad = "%d parsers are built and %d parses run on one path" % (len(news), len(parses))
+                break
+            src = repr(news[0][1])
+            over_input = "input_slice_of_the_first_argument" in src and "slice_of_something_else" not in src
+            if over_input and isinstance(news[0][1], sym.Adt) and news[0][1].ty == "RawParts":
+                ln = news[0][1].fields[1]
+                over_input = z3.is_expr(ln) and any(z3.is_true(z3.simplify(ln == 4 * z3.BitVec(nm_, 64))) for nm_ in ("input_len", "input_slice_of_the_first_argument#len"))
+            if not over_input:
+                bad = "the parser is built over %s, not over the caller's input" % src[:120]
+                break
+            v = r.value
+            out = [e for e in r.events if e[0] == "parse-outcome"][-1][1]
+            okv = isinstance(v, sym.Adt) and ((out == "ok" and v.variant == "Ok") or (out == "err" and v.variant == "Err" and isinstance(v.fields[0], sym.Sym) and v.fields[0].name == "parse_err0"))
+            if not okv:
+                bad = "the wrapper returns %r after a parse that ended %s" % (v, out)
+                break
+        tag = "wrapper/%s/one-parser-one-parse-same-result" % wname
+        if bad is None:
+            ctx.ob(tag, True, "%d paths" % len(res))
+            continue
+        # differential confirmation over the corpus
+        import c20
+        import c03
+        le = c03.le
+        mod = bytes.fromhex(HEADER + NOP + NOP)
+        extra = [mod + b"\0\0\0\0", mod + b"\0" * 8, b"".join(mod[i:i + 4][::-1] for i in range(0, len(mod), 4)), mod]
+        found = None
+        for data in extra + list(c20.corpus("quick")):
+            real = rp.ask("wrappers_vs_parser %s" % data.hex())
+            if "panic" in real or real.get("direct") != real.get("parse_bytes") or (real.get("parse_words") is not None and real.get("parse_words") != real.get("direct")):
+                found = (data, real)
+                break
+        if found:
+            ctx.ob(tag, False, bad)
+            ctx.violation("parse/wrapper/%s" % wname, "%s: %s; on the compiled crate, for the %d-byte input %s... the wrapper and Parser::new(..).parse() differ: %s" % (
+                wname, bad, len(found[0]), found[0][:24].hex(), str(found[1])[:400]), {"cmd": "wrappers_vs_parser %s" % found[0].hex(), "real": found[1]})
+        else:
+            ctx.ob(tag, None, "model-only deviation (%s); wrapper and parser agree on the whole corpus" % bad)
 
 
 HEADER = "03022307" + "00000100" + "00000000" + "07000000" + "00000000"
